@@ -88,6 +88,9 @@ fn main() {
                 continue;
             }
         }
+        if tier == Tier::Thorough && std::env::var("VERIF_ONLY_FUZZ").is_ok() {
+            continue;
+        }
         let o = s.run(&ctx);
         evaluations += o.cov.evaluations;
         distinct += o.cov.nontrivial.len() as u64;
@@ -112,6 +115,22 @@ fn main() {
             violations.push(v);
         }
     }
+    // thorough tier: coverage-guided campaigns over the same sub-checks (fuzz.rs)
+    let mut fuzz_report = Value::Null;
+    let mut fuzz_inconclusive: Vec<String> = vec![];
+    if tier == Tier::Thorough && violations.is_empty() && std::env::var("VERIF_NO_FUZZ").is_err() {
+        let out = srv::fuzz::campaigns(&ctx, &spec);
+        if let Some(subs) = out.report["subchecks"].as_object() {
+            for (_, r) in subs {
+                evaluations += r["target_stats"]["evaluations"].as_u64().unwrap_or(0);
+            }
+        }
+        fuzz_report = out.report;
+        fuzz_inconclusive = out.inconclusive;
+        if let Some(v) = out.violation {
+            violations.push(v);
+        }
+    }
     let wall = t0.elapsed().as_secs_f64();
     let mut coverage = json!({
         "evaluations": evaluations,
@@ -125,6 +144,9 @@ fn main() {
     });
     if !counters.is_empty() {
         coverage["counters"] = Value::Object(counters);
+    }
+    if !fuzz_report.is_null() {
+        coverage["fuzz"] = fuzz_report;
     }
     if !violations.is_empty() {
         coverage["violations"] = json!(violations.iter().map(|v| json!({"sub": v.sub, "sig": v.sig, "replay": v.replay_path, "detail": v.detail.chars().take(2000).collect::<String>()})).collect::<Vec<_>>());
@@ -155,6 +177,10 @@ fn main() {
     let inconclusive: u64 = evidence["coverage"]["counters"].as_object().map(|o| o.values().filter_map(|v| v["inconclusive"].as_u64()).sum()).unwrap_or(0);
     if inconclusive > 0 {
         eprintln!("srv: INCONCLUSIVE — {} case(s) hit a watchdog or resource limit", inconclusive);
+        std::process::exit(2);
+    }
+    if !fuzz_inconclusive.is_empty() {
+        eprintln!("srv: INCONCLUSIVE — fuzz campaign(s): {:?}", fuzz_inconclusive);
         std::process::exit(2);
     }
     if !missing.is_empty() {
